@@ -72,6 +72,7 @@ type Violation struct {
 	Kinds  []string `json:"kinds,omitempty"`
 	Where  string   `json:"where,omitempty"`
 	Trace  []Decision `json:"-"`
+	Expect []uint64 `json:"expect,omitempty"` // selftest: values of the observations in this model
 }
 
 type PathResult struct {
@@ -124,6 +125,66 @@ type Path struct {
 	gtext   map[int][]*Term
 	threads   []*coThread
 	curThread int
+	obs       []*Term // selftest observations
+}
+
+// recordObservations (selftest) asks for up to k models of the finished path that differ
+// in what was observed (or, when every observation is concrete, in some input), and
+// records for each the input values and the values of the observations in that model.
+func (p *Path) recordObservations(k int, panicked bool) {
+	if len(p.obs) == 0 && !panicked {
+		return
+	}
+	obs := append([]*Term{}, p.obs...)
+	if panicked {
+		obs = append(obs, p.tt.Const(64, 0xdead))
+	}
+	var want []*Term
+	want = append(want, p.nd...)
+	want = append(want, obs...)
+	var block *Term
+	for i := 0; i < k; i++ {
+		r := p.w.solver.CheckWith(p.pc, block, true, want...)
+		if r != "sat" {
+			p.w.solver.EndModel()
+			return
+		}
+		vals, err := p.w.solver.Values(want)
+		p.w.solver.EndModel()
+		if err != nil {
+			return
+		}
+		nv := append([]uint64{}, vals[:len(p.nd)]...)
+		ov := make([]uint64, len(obs))
+		for j, t := range obs {
+			ov[j] = vals[len(p.nd)+j] & mask(t.S.W)
+		}
+		p.res.Violations = append(p.res.Violations, Violation{Label: fmt.Sprintf("model %d", i), Kind: "observe", Entry: p.entry,
+			Values: nv, Kinds: append([]string{}, p.ndKinds...), Expect: ov, Trace: append([]Decision{}, p.trace...)})
+		// next model: some observation (else some input) takes another value
+		var diff []*Term
+		for j, t := range obs {
+			if t.Op != OConst && t.S.K == SBV {
+				diff = append(diff, p.tt.Not(p.tt.Eq(t, p.tt.Const(t.S.W, ov[j]))))
+			}
+		}
+		if len(diff) == 0 {
+			for j, t := range p.nd {
+				if t.S.K == SBV {
+					diff = append(diff, p.tt.Not(p.tt.Eq(t, p.tt.Const(t.S.W, nv[j]&mask(t.S.W)))))
+				}
+			}
+		}
+		if len(diff) == 0 {
+			return
+		}
+		d := p.tt.Or(diff...)
+		if block == nil {
+			block = d
+		} else {
+			block = p.tt.And(block, d)
+		}
+	}
 }
 
 func (p *Path) unsupported(format string, args ...interface{}) pathAbort {
